@@ -251,7 +251,9 @@ def finish(mod, tier, seed, src, cases, results, t0, exhaustive=True):
     evals = states = transitions = traces = 0
     viol_lines, known_hits = [], {}
     rejected_kinds = {}
-    os.makedirs(os.path.join(VERIF, "replays", pid), exist_ok=True)
+    # runs against another tree (mutants, seeded worktrees) must not touch the evidence / replays of the real tree
+    out_root = VERIF if os.path.abspath(src) == DEFAULT_SRC else os.path.join(VERIF, ".scratch", "src-runs", str(os.getpid()))
+    os.makedirs(os.path.join(out_root, "replays", pid), exist_ok=True)
     for case, r in zip(cases, results):
         counts[r["status"]] = counts.get(r["status"], 0) + 1
         if r["status"] in ("ok", "violation", "unconfirmed"):
@@ -272,7 +274,7 @@ def finish(mod, tier, seed, src, cases, results, t0, exhaustive=True):
                 known_hits.setdefault(kf["fp"], [kf, 0])[1] += 1
                 continue
             h = hashlib.sha1((v["fp"] + json.dumps(case, sort_keys=True, default=str)).encode()).hexdigest()[:12]
-            path = os.path.join(VERIF, "replays", pid, f"{h}.json")
+            path = os.path.join(out_root, "replays", pid, f"{h}.json")
             with open(path, "w") as f:
                 json.dump(
                     {"property": pid, "tier": tier, "seed": seed, "src": src, "case": case, "fp": v["fp"], "msg": v["msg"], "detail": v.get("detail")},
@@ -332,8 +334,8 @@ def finish(mod, tier, seed, src, cases, results, t0, exhaustive=True):
         "wall_s": round(wall, 2),
         "violations": len(viol_lines),
     }
-    os.makedirs(os.path.join(VERIF, "evidence"), exist_ok=True)
-    with open(os.path.join(VERIF, "evidence", f"{pid}.json"), "w") as f:
+    os.makedirs(os.path.join(out_root, "evidence"), exist_ok=True)
+    with open(os.path.join(out_root, "evidence", f"{pid}.json"), "w") as f:
         json.dump(ev, f, indent=1, default=str)
 
     print(
